@@ -91,6 +91,20 @@ CLAIMED["C12"] = dict(
          "relations; crop/ConstantVelocity only for vector-valued splines; arclength, FixedCubic not covered; rewrite rules R1/R2.",
     tech=IRSX + "concolic path discovery + exact normal form over symbolic control data", ref="4 C12")
 
+CLAIMED["C07"] = dict(
+    text="SubManifold (M = SO3d, SE2d, Vector3d; all 8 fixed subsets): rplus moves only along free directions, keeps the origin, dof, rminus reports only free "
+         "components, cast keeps value and origin; AnyManifold forwards to the wrapped type through its vtable and copies are independent; std::variant operations "
+         "equal those of the active alternative and keep its index; Lie groups: rminus(rplus(m,a),m) = a and rminus(m,m) = 0 by composing the extracted operations. "
+         "Found and repaired: SubManifold cast swapped value and origin. The std::vector adaptor is not covered.",
+    note="A1; A2 (atan2 injectivity for |a_rot| < pi); A6 incl. unique_ptr/vtable/std::visit execution; A7; rewrite rule R3; std::vector<M> adaptor unverified.",
+    tech=IRSX + "exact normal form and structural identity against the group contracts", ref="4 C07")
+CLAIMED["C18"] = dict(
+    text="Effect contracts: every listed const operation has an empty shared-write frame on every path (no write inside a marked const region to storage initialised "
+         "before it; const inputs and globals of group functions and sparse routines never written), which implies race freedom and schedule independence by "
+         "non-interference. No schedule is explored. Found and repaired: SubManifold's mutable scratch member. BSpline, diff::dr, minimize, fit_* not covered.",
+    note="A5 non-interference argument; A6 irsx memory model; A8; first-use initialisation of function-local statics executed sequentially only.",
+    tech=IRSX + "byte-exact written-cell sets inside marked const regions (effect contracts)", ref="4 C18")
+
 NOT_YET = {}
 
 
